@@ -117,3 +117,20 @@ impl ContainerBoxType {
     /// HDR gain map box.
     pub const HDR_GAIN_MAP: Self = Self(*b"jhgm");
 }
+
+#[cfg(jxl_oxide_verif)]
+impl ContainerBoxHeader {
+    /// Verification hook: builds a header as `parse` would have returned it.
+    pub fn verif_new(ty: ContainerBoxType, box_size: Option<u64>) -> Self {
+        Self {
+            ty,
+            box_size,
+            is_last: box_size.is_none(),
+        }
+    }
+
+    /// Verification hook: exposes `parse` (crate-private) to the harness crate.
+    pub fn verif_parse(buf: &[u8]) -> Result<HeaderParseResult, Error> {
+        Self::parse(buf)
+    }
+}
